@@ -2,3 +2,4 @@ import Ledger.Lock
 import Ledger.Num.Funding
 import Ledger.Num.Spec
 import Ledger.Num.C01
+import Ledger.Num.CC
